@@ -137,6 +137,20 @@ let t_case (c : case) : string =
   end;
   Buffer.add_string b " l";
   if has_ev then SL.iter (fun s -> Buffer.add_string b (" " ^ s)) qpreds;
+  if c.scheme = "dyn" && c.comp = "ind" then begin
+    let train = SL.init c.ntrain (fun i -> (c.otrain.(0).(i), nat_of_int (class_label c.labels.(i)))) in
+    match dyn_build m_atan (nat_of_int c.classes) (nat_of_int c.xslot) train with
+    | None -> raise Undefined_behaviour
+    | Some d ->
+        Buffer.add_string b (Printf.sprintf " mat %d %d" (int_of_nat d.dm_ns) (int_of_nat d.dm_classes));
+        SL.iter (fun r -> SL.iter (fun z -> Buffer.add_string b (" " ^ dec_of_z z)) r) d.dm_matrix;
+        Buffer.add_string b " cls";
+        SL.iter (fun cl -> Buffer.add_string b (" " ^ string_of_int (int_of_nat cl))) d.dm_slot_class;
+        Buffer.add_string b " slots";
+        let sl o = match slot m_atan d.dm_ns o with Some s -> string_of_int (int_of_nat s) | None -> raise Undefined_behaviour in
+        for j = 0 to c.nquery - 1 do Buffer.add_string b (" " ^ sl c.oquery.(0).(j)) done;
+        for i = 0 to c.ntrain - 1 do Buffer.add_string b (" " ^ sl c.otrain.(0).(i)) done
+  end;
   if c.scheme = "gauss" && c.comp = "ind" then begin
     let train = SL.init c.ntrain (fun i -> (c.otrain.(0).(i), nat_of_int (class_label c.labels.(i)))) in
     Buffer.add_string b " var";
